@@ -39,9 +39,9 @@ CLAIMED = {
   technique="symbolic execution of rustc MIR + z3: satisfiability of the path condition at every panic site, native replay",
   ref="DESIGN.md §5 C04"),
  'C05': dict(
-  text="Reduced claim (the long-division digit loop is outside). Solver-decided on the real MIR: (a) BigRat::to_scientific for bases 2/8/10/16/36 and modes default/scientific/engineering, |value| within [base^-3, base^3] (thorough ^6): the mantissa handed to the digit printer times base^(printed exponent) equals the value exactly, engineering exponents are multiples of 3, the exactness flag is the printer's; (b) BigRat::is_recurring on a remainder n/d with i64 parts: the returned block satisfies digits/(base^period - 1) = n/d, 0 <= digits < base^period, period below the requested bound, no i64 overflow; (c) Numeric::string_repr + the `n` format pattern: `approx.` is shown exactly when the printer did not call the numeral exact; (d) `x -> base B`: the numerals of the reply are those printed for that base, never the base-10 strings of the generic rendering.",
-  note="Stub: BigRat::to_digits_impl / Numeric::to_string -> arbitrary (exactness flag, text) - the digits themselves are NOT checked. OUTSIDE, and therefore most of the property as stated: to_digits_impl (digit budget from an f64 logarithm, value-dependent trip count, seen-remainder set), i.e. that printed digits denote the value, truncation error of approximate numerals, recurring blocks found by the remainder set, `digits N` budgets.",
-  technique="symbolic execution of rustc MIR + z3 (nonlinear integer/real arithmetic with a division lemma)",
+  text="Solver-decided on the real MIR. (a) BigRat::to_scientific for bases 2/8/10/16/36 and modes default/scientific/engineering, |value| within [base^-3, base^3] (thorough ^6): the mantissa handed to the digit printer times base^(printed exponent) equals the value exactly, engineering exponents are multiples of 3, the exactness flag is the printer's; (b) BigRat::is_recurring on a remainder n/d with i64 parts: the returned block satisfies digits/(base^period - 1) = n/d, 0 <= digits < base^period, period below the requested bound, no i64 overflow; (c) Numeric::string_repr + the `n` format pattern: `approx.` is shown exactly when the printer did not call the numeral exact, and the fraction shown as the exact companion of an approximate numeral is numer/denom of the value; (d) `x -> base B`: the numerals of the reply are those printed for that base, never the base-10 strings of the generic rendering; (e) the long division BigRat::to_digits_impl by loop-head induction: the real prologue establishes the start state, and one real iteration of the loop from the specified state `n digits produced` (symbolic digits and remainder, the value defined from them; text so far; remembered remainders) either returns a numeral that denotes the value - exact, recurring with the bracket at the right offset and the stated period equal to the block length, or truncated toward zero within one unit of the last digit - or arrives at the loop head in the state `n+1 digits produced`. Counterexamples are replayed by calling BigRat::to_scientific / BigRat::to_string natively and re-reading the numeral with exact fractions.",
+  note="Bounds of (e): base 10, intdigits 1..2 (thorough 1..3), at most 8 digits produced before the iteration for the budgets Default and 2 digits, 13 for 12 digits (thorough: 14, budgets Default/0/3/12, every leading-zero count; base 2 up to 10 digits; base 16 up to 5 digits with blocks of at most 4), plus one family of very long states: 1001..1003-digit integer parts (first ~995 digits fixed) with 998..1003 digits produced under the `to digits` budget. Stubs inside (e): BigInt::size_in_base -> true digit count or one more (the arithmetic contract of its f64 formula); BigRat::is_recurring -> its contract (its real code is decided by (b)). The pre-state over-approximates the reachable ones (that no remembered remainder has a short period is used only to shape counterexamples). In (a)-(d) the digit printer is replaced by an arbitrary (exactness flag, text). OUTSIDE: size_in_base itself, other integer parts of more than 3 digits, other long runs, bases other than 2/10/16 in (e), float values.",
+  technique="symbolic execution of rustc MIR + z3 (mixed integer/real arithmetic); loop-head induction (base case + one-iteration step) for the digit loop",
   ref="DESIGN.md §5 C05"),
  'C06': dict(
   text="Two solver-decided parts. (a) Number::prettify on the real MIR with the prefix table read from the loaded database: value an unbounded Real, display unit one of kg/kilogram/bit/gram/meter/second to the power 1,2,-1 (thorough 3): on every path (each possible prefix choice, the kg->gram, bit->byte and tonne special cases) z3 decides numeral * prefix^power * rescaling = the original quantity and that the printed unit is prefix + the same base unit. (b) eval_expr and eval_unit_name executed on the same conversion-target tree (10 shapes over Mul, Frac, Neg, Add, Sub, Pow 2, Mod with symbolic constants and unit values): the target's value equals the printed constant times the product of the named units - the invariant Context::show relies on for factor/divfactor.",
@@ -76,7 +76,6 @@ ADD_TEXT = {
  'C03': " Added: Context::describe_unit (the text that names the missing factor in a conformance error) on an arbitrary dimensionality over m, s with a table of six named quantities: the description, read back, denotes exactly that dimensionality (with the reciprocal flag).",
  'C06': " Added: Number::pretty_unit with the real fast_decompose on an arbitrary dimensionality over kg, m, s and a table of derived units (regrouping preserves the dimensionality, whatever candidate the heuristic picks), and Number::unit_to_string (its text read back denotes the dimensionality).",
  'C04': " Added: parse_query on the `-> [digits N] [base B] [target]` suffix with symbolic digits (an accepted base lies in 2..=36), to_duration on float seconds (NaN, infinite, finite), the date offset matcher with hours of 1..10 digits, attempt() on out-of-range offsets.",
- 'C05': " Added: counterexamples are replayed by calling BigRat::to_scientific / BigRat::to_string natively and re-reading the numeral with exact fractions (sign, radix point, recurring block, stated period, exponent); the fraction shown as exact companion of an approximate numeral is decided to be numer/denom of the value; the long division of to_digits_impl is decided by loop-head induction: the real prologue establishes the start state, and one real iteration from the specified state `n digits produced` (digits, remainders, text so far, remembered remainders) either returns a numeral that denotes the value (exact / recurring with the bracket at the right offset and the stated period equal to the block length / truncated within one unit of the last digit) or arrives at the loop head in the state `n+1 digits produced`.",
  'C07': " Added: Context::canonicalize followed by lookup preserves the value (symbolic database with long/short prefix pairs and names that split two ways); lookup(first); lookup(second) on one context equals lookup(second) on an identical fresh context for 9 name pairs with two prefix readings (history independence); static scan: no iteration over a std HashMap/HashSet in rink-core. Counterexamples are replayed on a Registry built natively from the model.",
  'C09': " Added: the Duration reply of eval_query (automatic year/week/day/hour/minute/second breakdown) through the real arm with database constants.",
  'C14': " Added: parse_date pattern elements (13 numeric elements, fractional seconds of 1..10 digits, offsets +hhmm / +h..h:mm) on symbolic digit strings; attempt() on the offset pattern with chrono's Parsed conversions by contract: the instant carries exactly the offset written and offsets of 24 h or more are refused; to_duration on float seconds.",
@@ -88,7 +87,6 @@ ADD_NOTE = {
  'C03': " describe_unit is no longer stubbed in its own harness (it still is in the conversion harnesses); assumes a non-dimensionless argument, as its only caller guarantees.",
  'C06': " (fast_decompose and the unit-string assembly are now covered by their own harnesses; the note above predates them.) Still OUTSIDE: the real decomposition table of the database (a six-entry table is used), substance replies.",
  'C04': " tools/panic_surface.py lists the functions with panic sites that no harness enters (17 of 51 reachable from the query entry points at the time of writing: factorize, fast_decompose, expand_aliases, describe_unit, search_impl, parse_unitlist, parse_function, reply Display impls ...): outside the claim.",
- 'C05': " The note above predates the loop-head induction: the digits ARE now decided, one iteration at a time, within the bounds base 10 / intdigits 1..2 (thorough 1..3) / at most 13 (thorough 14) digits produced before the iteration / budgets Default, 2 and 12 digits (thorough Default, 0, 3, 12; base 2 up to 10 digits; base 16 up to 5 digits with blocks of at most 4). BigInt::size_in_base is replaced by its arithmetic contract (true digit count or one more), BigRat::is_recurring by its contract inside the step (its real code is decided separately). One family of very long states is also decided: 1001..1003-digit integer parts (first ~995 digits fixed) with 998..1003 digits produced under the `to digits` budget. The loop-invariant locals come from the real prologue; only the loop-carried variables are specified. OUTSIDE: other integer parts of more than 3 digits, other long runs, bases other than 2/10/16.",
  'C07': " (canonicalize is now claimed under the stated well-formedness assumption: every unit has a definition, long and short spellings of a prefix carry the same value.)",
  'C14': " Float seconds: NaN, infinities and finite floats up to 2^52 s; beyond that the rounding of v*1000 decides and the value model of floats cannot settle it.",
  'C19': " Engine M bounds: 2 threads x 1 operation, sequential consistency at atomic-call granularity (no weak-memory reordering), sizes <= 2^62.",
